@@ -50,6 +50,16 @@ fn main() {
         None => rest.to_ascii_lowercase(),
     };
     let rest = rest.as_str();
+    // A side effect ordered by the harness for the fetch of one module:
+    // `<case>/on-fetch` holds "<host>/<module>\t<from>\t<to>"; the path
+    // is renamed once, while the fetch is under way.
+    if let Ok(order) = fs::read_to_string(case.join("on-fetch")) {
+        let parts: Vec<&str> = order.trim_end().split('\t').collect();
+        if parts.len() == 3 && parts[0] == rest {
+            let _ = fs::remove_file(case.join("on-fetch"));
+            let _ = fs::rename(parts[1], parts[2]);
+        }
+    }
     if case.join("unreachable").join(rest).exists() {
         eprintln!("rsync: failed to connect to {rest}: Connection refused (111)");
         std::process::exit(10)
